@@ -42,6 +42,16 @@ def must_fit(msg):
     return ib + (3 if msg['init'] is not None else 2) <= 1023
 
 
+def conforms(info):
+    """Message X proper (block.tlb): int_msg_info src,dest:MsgAddressInt; ext_in src:MsgAddressExt dest:MsgAddressInt; ext_out the converse"""
+    is_int = lambda a: a[0] == 's'
+    if info[0] == 'I':
+        return is_int(info[4]) and is_int(info[5])
+    if info[0] == 'X':
+        return not is_int(info[1]) and is_int(info[2])
+    return is_int(info[1]) and not is_int(info[2])
+
+
 def short(msg):
     c = M.canon_msg(msg)
     return c if len(c) < 400 else c[:400] + '...'
@@ -137,6 +147,9 @@ def check_msg(ctx, msg, tag, all_choices=True):
             dc = M.Dag()
             ci = dc.add(c)
             ctx.expect_model(f'msgdec {dc.line()} {ci}', 'ok ' + want, f'{tag} spec-decode of library cell')
+            conf = conforms(msg['info'])
+            ctx.count('message-x-proper' if conf else 'relaxed-address-classes')
+            ctx.expect_model(f'msgdecs {dc.line()} {ci}', 'ok ' + want if conf else 'err', f'{tag} strict reader (Message X proper: {conf})')
         own = lib_parse(c)
         if own != want:
             ctx.fail(f'ser-own:{sh[0]}:extra{sh[1]}:init{sh[2]}', 'MessageAny.deserialize(serialize(m)) is a different message', inp, own, want)
